@@ -204,3 +204,40 @@ def ob_arms(chk, rule, site, law, body, max_arms=16, **kw):
 def DEG2RAD_of(it, mod):
     """the repo's own DEG2RAD constant as an abstract value"""
     return it.module_global(mod, "DEG2RAD")
+
+
+# ------------------------------------------------------------------------------------------ BAND rule
+import ast as _ast
+import math as _math
+
+
+def isclose_band(call, default_rtol=1e-5, default_atol=1e-8):
+    """for a call np.isclose/np.allclose(e, c) with literal c: the half-width |e - c| <= atol + rtol*|c| of the shortcut"""
+    if len(call.args) < 2:
+        return None
+    c = call.args[1]
+    try:
+        cv = float(_ast.literal_eval(c))
+    except Exception:
+        return None
+    rtol, atol = default_rtol, default_atol
+    for k in call.keywords:
+        try:
+            if k.arg == "rtol":
+                rtol = float(_ast.literal_eval(k.value))
+            if k.arg == "atol":
+                atol = float(_ast.literal_eval(k.value))
+        except Exception:
+            return None
+    if len(call.args) > 2:
+        try:
+            rtol = float(_ast.literal_eval(call.args[2]))
+        except Exception:
+            return None
+    return cv, atol + rtol * abs(cv)
+
+
+def trace_band_angle(half_width):
+    """largest rotation angle t with |trace - 3| = 2(1 - cos t) <= half_width"""
+    x = 1.0 - half_width / 2.0
+    return _math.acos(max(-1.0, min(1.0, x)))
